@@ -32,6 +32,9 @@ CHECKS["C16"] = dict(design="4/C16", technique="trace validation: recorded instr
 CHECKS["C17"] = dict(design="4/C17", technique="TLA+ pull-driven stream machine (GqlSubscribe) model-checked (safety + liveness); behaviours replayed action by action on subscribe() with a gated source and gated field resolvers on a private event loop",
     text="spec/GqlSubscribe.tla models Subscribe / Produce / Pull / Deliver / FieldDone / Yield / End with the four refusal set-ups; TLC checks OnePerEvent, NoConsumeBeforeRefusal, InOrder, EndOnlyAtSourceEnd and termination, and enumerates event sequences (per-event outcomes: value, null, resolver error, null in non-null, unexpected exception, alternating concrete types with type-specific argument defaults), the relative timing of source and consumer and the completion order of deferred field resolvers. Each behaviour is replayed on the real subscribe(): source __anext__ calls, pending field gates and readiness of each pulled result are compared after every action and every yielded result must equal the reference computed from that event alone; refusals must raise the documented exception with zero source calls.",
     note="Single consumer; events<=1 exhaustive, 2-3 events by TLC simulation; silent steps fused by the implementation are looked ahead.")
+CHECKS["C10"] = dict(design="4/C10", technique="TLA+ request pipeline (GqlRequest) enumerated by TLC + response-format judge (GqlResponse) evaluated by TLC on projected responses of the request matrix, all prefixes of request texts and TLC-generated executions",
+    text="spec/GqlRequest.tla fixes the outcome class (syntax / invalid / no operation / bad variables / executed) of every document x operation name x variable payload; each request runs on the four entry-point configurations. Their responses, those of every prefix of a set of request texts (truncation anywhere, CR / CRLF / BOM / escapes / block strings) and of GqlSched executions (error positions incl. list indices known from the model) are projected and judged clause by clause by spec/GqlResponse.tla: no escaping exception, strict JSON, data omitted after parse / validation failure, string messages, line / column keys and in-document ranges, paths of keys and indices addressing a null, extensions passed through, exactly one error per error-null, no two errors for one path. Canary responses must be rejected.",
+    note="Outcome class of free texts comes from the C01-verified parser and the validator; strict JSON is a harness observation (json.dumps(allow_nan=False)).")
 NOT_YET = {
 }
 
